@@ -297,6 +297,14 @@ class ReaderLocs(Harness):
                     yield dict(n=n, first=name)
             else:
                 yield dict(n=n, first=None)
+        # list syntax needs a few bytes before anything interesting happens: in every tier, five bytes after an open
+        # parenthesis, and "( ." / "(a ." followed by three arbitrary bytes (dotted tails with layout before the dot)
+        if 5 not in self.lengths[tier]:
+            for name2, _ in self.FIRST:
+                yield dict(n=5, first='open', second=name2)
+        for second in ('ws', 'nl', 'other', 'digit'):
+            yield dict(n=6, first='open', second=second, third='dot')
+            yield dict(n=6, first='open', second=second, third='ws')
 
     def sym_inputs(self, case):
         return dict(b=sym_bytes('b', case['n']))
@@ -325,6 +333,8 @@ class ReaderLocs(Harness):
             eng.assume(self.first_constraint(case, bs[0].e))
         if len(bs) > 1:
             eng.assume(self.first_constraint(case, bs[1].e, 'second'))
+        if len(bs) > 2:
+            eng.assume(self.first_constraint(case, bs[2].e, 'third'))
         start = rich.loc(1, 1)
         it = IterV([Cell(b) for b in bs], owned=True)
         res = eng.call('sexp::parse_sexp', [start, it])
@@ -410,6 +420,9 @@ class ReaderLocs(Harness):
             if n > 1 and case.get('second'):
                 vals = d[case['second']]
                 v[1] = rnd.choice(vals) if vals else 0x61
+            if n > 2 and case.get('third'):
+                vals = d[case['third']]
+                v[2] = rnd.choice(vals) if vals else 0x61
             vs.append(v)
         return [dict(b=v) for v in vs]
 
